@@ -176,6 +176,10 @@ def gen(seed, ident_base=1000) -> dict:
             threads.append({"prog": _prog(g, swarm, g.choice([1, 2, 3])), "after": pred, "reuse": g.random() < 0.75})
     env0 = {}
     operator = []
+    for i, th in enumerate(threads):
+        if th.get("after") is not None and th.get("reuse") and g.random() < 0.5:
+            threads[th["after"]]["hold_handle"] = True
+            operator.extend([["release", th["after"]]] * g.choice([1, 2, 3]))
     if swarm["env"]:
         for k in KEYS:
             if k != "DIRECTORY" and g.random() < 0.4:
@@ -484,6 +488,19 @@ def run_one(spec: dict) -> dict:
                 w.scopes[t.idx] = outer
                 if accepted:
                     w.violate("nested_accepted", f"thread {t.idx}: nested override was not refused: {op[1]!r}", t.idx)
+            elif kind == "release":
+                import gc
+
+                h = handles.pop(op[1], None)
+                if h is not None and h.done:
+                    h.real = None
+                    del h
+                    with no_preempt():
+                        gc.collect()
+                    w.probe("stale_thread_handle_released")
+                    w.log(t.idx, "release", [op[1]], "released")
+                elif h is not None:
+                    handles[op[1]] = h
             elif kind == "env":
                 env = dict(w.env_hist[-1])
                 if op[2] is None:
@@ -512,6 +529,7 @@ def run_one(spec: dict) -> dict:
             w.violate("open_refused", f"final probe thread (ident {t.ident}) could not open a scope after everything was closed: {e}", t.idx)
         read(t, "DEFAULT_SCHEMA", "final_read")
 
+    handles = {}
     crowd_n = int(spec.get("crowd") or 0)
     crowd_state = {"inside": 0, "actives_done": 0}
     base = spec.get("ident_base", 1000)
@@ -550,7 +568,13 @@ def run_one(spec: dict) -> dict:
         wait = [sim_threads[after]] if after is not None and after < i else []
         # two live threads never share an identifier: a reuser waits for every earlier user
         wait += [sim_threads[j] for j in range(i) if idents[j] == ident and sim_threads[j] not in wait]
-        sim_threads.append(sched.spawn(f"t{i}", mk(), ident=ident, wait_for=wait))
+        st_ = sched.spawn(f"t{i}", mk(), ident=ident, wait_for=wait)
+        if th.get("hold_handle"):
+            # somebody (a list of workers, a future) keeps this thread's Thread object after it ended, and lets go
+            # of it later: its identifier may have been handed to a new thread by then
+            st_.keep_handle = True
+            handles[i] = st_
+        sim_threads.append(st_)
     nworkers = len(sim_threads)
     for ci in range(crowd_n):
         # a crowd of other callers that simply sit inside scopes of their own for the whole run
